@@ -21,7 +21,7 @@ pub enum Act {
     Quiet(i64), // bits
 }
 
-pub const ALPHABET: [Act; 16] = [
+pub const ALPHABET: [Act; 17] = [
     Act::Tok(P, TS),
     Act::Tok(X, TS),
     Act::Tok(Y, TS),
@@ -32,6 +32,8 @@ pub const ALPHABET: [Act; 16] = [
     // 126 is not a station address (0..=125): a token telegram carrying it is noise
     Act::Tok(126, TS),
     Act::Tok(126, P),
+    // a second station with the own address claims the token
+    Act::Tok(TS, TS),
     Act::StatReq(P),
     Act::StatReq(X),
     Act::StatResp(X),
@@ -399,7 +401,7 @@ fn exhaustive(i: u64, depth: u32, obs: &mut Obs) -> CaseResult {
 pub fn property() -> Property {
     Property {
         id: "C11",
-        rule: "cases: one real station TS=5 (HSA 8, two-station ring with partner 6) against a scripted environment; ALL sequences of depth 3 (quick) / 4-5 (thorough) over a 16-symbol alphabet (tokens P->TS, X->TS, Y->TS, P->X, X->P, 200->TS, TS->P, 126->TS, 126->P; status request from P / X; status reply; SC; silence of Tslot/2, 1.5 Tslot, token-lost time-out) from two start states (listening; in-ring idle), random sequences up to length 40, and the supervision scenarios (successor silent / heard after the 1st, 2nd, 3rd pass, three kinds of heard telegram and three kinds of undecodable activity - noise, bad checksum, bad length repetition -, eight delays). History invariants with PS/NS read from inspect_token_ring() immediately before each offer: token from the registered predecessor is accepted, a first offer by a stranger is not, an immediately repeated offer is; a listening station never uses a token and initiates only its claim; nothing is initiated without the token; status requests to TS are answered exactly once; after the own pass: silence => identical token again after > Tslot, three in total, then the successor leaves the LAS and the token goes to the next station; heard => no repetition, successor kept. Non-trivial = sequence contains a token offer to TS or starts in the ring; distinct by sequence.",
+        rule: "cases: one real station TS=5 (HSA 8, two-station ring with partner 6) against a scripted environment; ALL sequences of depth 3 (quick) / 4-5 (thorough) over a 17-symbol alphabet (tokens P->TS, X->TS, Y->TS, P->X, X->P, 200->TS, TS->P, 126->TS, 126->P, TS->TS; status request from P / X; status reply; SC; silence of Tslot/2, 1.5 Tslot, token-lost time-out) from two start states (listening; in-ring idle), random sequences up to length 40, and the supervision scenarios (successor silent / heard after the 1st, 2nd, 3rd pass, three kinds of heard telegram and three kinds of undecodable activity - noise, bad checksum, bad length repetition -, eight delays). History invariants with PS/NS read from inspect_token_ring() immediately before each offer: token from the registered predecessor is accepted, a first offer by a stranger is not, an immediately repeated offer is; a listening station never uses a token and initiates only its claim; nothing is initiated without the token; status requests to TS are answered exactly once; after the own pass: silence => identical token again after > Tslot, three in total, then the successor leaves the LAS and the token goes to the next station; heard => no repetition, successor kept. Non-trivial = sequence contains a token offer to TS or starts in the ring; distinct by sequence.",
         assumptions: vec![
             "formulated over observable ownership episodes (DESIGN 6, C11 i-v): an offer arriving while TS supervises its own pass counts as a first offer; the remembered stranger is forgotten when TS acted as owner; only one stranger is remembered; a station that saw its own address twice is Offline and has no obligations; 'heard' = a complete valid telegram polled before the slot expires",
             "the environment transmits only after 40 bit times of idle bus and the station is polled every 5 us",
@@ -439,13 +441,13 @@ pub fn property() -> Property {
             Tier::Quick => vec![
                 Step::Enumerate { kind: "supervision", count: 384 },
                 Step::Enumerate { kind: "supervision3", count: 4 },
-                Step::Enumerate { kind: "seq4", count: 2 * 16u64.pow(4) },
+                Step::Enumerate { kind: "seq4", count: 2 * 17u64.pow(4) },
                 Step::Pbt { kind: "random", cases: 20_000, max_len: 48 },
             ],
             Tier::Thorough => vec![
                 Step::Enumerate { kind: "supervision", count: 384 },
                 Step::Enumerate { kind: "supervision3", count: 4 },
-                Step::Enumerate { kind: "seq5", count: 2 * 16u64.pow(5) },
+                Step::Enumerate { kind: "seq5", count: 2 * 17u64.pow(5) },
                 Step::Pbt { kind: "random", cases: 60_000, max_len: 48 },
             ],
         },
